@@ -848,7 +848,8 @@ class Canon(object):
                     v = s.value
                     if stores.get(name) == 1 and name not in params and not name.startswith(ONCE):
                         if isinstance(v, ast.Constant) or (isinstance(v, ast.UnaryOp) and isinstance(v.operand, ast.Constant)) or \
-                                (isinstance(v, ast.Tuple) and v.elts and all(isinstance(e, ast.Constant) for e in v.elts)):
+                                (isinstance(v, ast.Tuple) and v.elts and all(isinstance(e, ast.Constant) for e in v.elts)) or \
+                                (isinstance(v, ast.Call) and _dotted(v.func) == 're.compile' and is_pure_literal(v)):     # a locally precompiled pattern
                             cands[name] = v
                             first_stmts[name] = s
                 for nm in ('body', 'orelse', 'finalbody'):
@@ -860,7 +861,7 @@ class Canon(object):
         scan(fn.body, False)
         # an alias is only safe when it is defined at the top level of the function body (dominates all uses)
         top = {id(s) for s in fn.body}
-        cands = {k: v for k, v in cands.items() if id(first_stmts[k]) in top or isinstance(v, (ast.Constant, ast.UnaryOp, ast.Tuple))}
+        cands = {k: v for k, v in cands.items() if id(first_stmts[k]) in top or isinstance(v, (ast.Constant, ast.UnaryOp, ast.Tuple, ast.Call))}
         # attribute aliases of properties with side effects are not our business: attribute reads are treated as pure
         if not cands:
             return False
@@ -1079,6 +1080,19 @@ class Spell(ast.NodeTransformer):
                                args=[pat] + node.args, keywords=[ast.keyword(arg='flags', value=flags)] if flags is not None else [])
                 self._hit()
                 return _relocate(new, node)
+        # re.sub / re.subn: count=0 and flags=0 are the defaults (no limit, no flags); a positional flags argument becomes flags=
+        if fn in ('re.sub', 're.subn') and len(node.args) >= 3:
+            if len(node.args) == 5 and not any(k.arg == 'flags' for k in node.keywords):
+                node.keywords = node.keywords + [ast.keyword(arg='flags', value=node.args[4])]
+                node.args = node.args[:4]
+                self._hit()
+            if len(node.args) == 4 and isinstance(node.args[3], ast.Constant) and node.args[3].value == 0:
+                node.args = node.args[:3]
+                self._hit()
+            kept = [k for k in node.keywords if not (k.arg in ('count', 'flags') and isinstance(k.value, ast.Constant) and k.value.value == 0)]
+            if len(kept) != len(node.keywords):
+                node.keywords = kept
+                self._hit()
         # keyword arguments -> positional (resolvable repo callee with one signature under that name, or a known stdlib one)
         if node.keywords and base and not any(k.arg is None for k in node.keywords) and not any(isinstance(a, ast.Starred) for a in node.args):
             sig = self._signature(node, base)
